@@ -266,17 +266,23 @@ def run_shard(spec, res):
             if not refcsv.representable(([an] if an else []) + A + (B or []) + ([bn] if bn else []), dlm, pol, 'utf-8') or not refcsv.representable([[stringify(v) for v in r] for r in ref['rows']] or [['x']], dlm, pol, 'utf-8'):
                 dlm, pol, cli_dlm = DIALECTS[0]
             res.count('dialect:%s/%s' % (cli_dlm, pol))
-            inp = os.path.join(d, 'in_%d.csv' % n)
+            # every case in a directory of its own; two cases in three call their files in.csv / jn.csv, so that the same relative join-table id
+            # names a different file from one query to the next (it is resolved against the directory of the input file / the working directory)
+            cd = os.path.join(d, 'c%d' % n)
+            os.mkdir(cd)
+            same_names = n % 3 != 0
+            inp = os.path.join(cd, 'in.csv' if same_names else 'in_%d.csv' % n)
             with open(inp, 'w', encoding='utf-8', newline='') as f:
                 f.write(csv_text(A, an, dlm, pol))
             q_csv = copy.deepcopy(case['q'])
             if B is not None:
-                jn = os.path.join(d, 'jn_%d.csv' % n)
+                jname = 'jn.csv' if same_names else 'jn_%d.csv' % n
+                jn = os.path.join(cd, jname)
                 with open(jn, 'w', encoding='utf-8', newline='') as f:
                     f.write(csv_text(B, bn, dlm, pol))
-                q_csv['join']['table'] = 'jn_%d.csv' % n
+                q_csv['join']['table'] = jname
             qtext_csv = qast.render(q_csv, qast.Ctx(an, bn), 'py')
-            outp = os.path.join(d, 'out_%d.csv' % n)
+            outp = os.path.join(cd, 'out_%d.csv' % n)
             out_has_header = bool(exp_header)
             err = None
             rows = hdr = None
@@ -292,7 +298,7 @@ def run_shard(spec, res):
             base = ['--delim', cli_dlm, '--policy', pol, '--query', qtext_csv] + (['--with-headers'] if has_header else [])
             fmt = ['input', 'csv', 'tsv'][n % 3]
             dl, pol_o = {'input': (dlm, pol), 'csv': (',', 'quoted'), 'tsv': ('\t', 'simple')}[fmt]
-            p = run_cli(base + ['--input', inp, '--output', outp, '--out-format', fmt], d)
+            p = run_cli(base + ['--input', inp, '--output', outp, '--out-format', fmt], cd if n % 2 else d)
             res.count('cli_runs')
             if p.returncode != 0 or p.stdout:
                 res.violation('py:cli-exit-status-or-stdout:file', '[cli file] %s: exit %d stdout %r stderr %r' % (qtext_csv, p.returncode, p.stdout[:80], p.stderr[-200:]), dict(case, front_end='cli-file'))
@@ -306,7 +312,7 @@ def run_shard(spec, res):
                 fmt2 = ['csv', 'tsv', 'input'][n % 3]
                 dl2, pol2 = {'input': (dlm, pol), 'csv': (',', 'quoted'), 'tsv': ('\t', 'simple')}[fmt2]
                 # a join table is found relative to the current directory when the input comes from stdin
-                p = run_cli(base + ['--out-format', fmt2], d, stdin=data)
+                p = run_cli(base + ['--out-format', fmt2], cd, stdin=data)
                 res.count('cli_runs')
                 if p.returncode != 0:
                     res.violation('py:cli-exit-status-or-stdout:stdin', '[cli stdin/stdout] %s: exit %d stderr %r' % (qtext_csv, p.returncode, p.stderr[-200:]), dict(case, front_end='cli-stdin'))
@@ -431,7 +437,7 @@ def summarize(tier, seed, m):
         'rule': 'rectangular string tables (1-5 rows, 2-4 columns, cells with spaces, quotes, commas, non-ASCII; no tab / line breaks) with and without header; type-agnostic structured queries (select / where / order / distinct / distinct count / top / inner join / update / except / aggregates) rotating systematically over clause combinations; each executed through query_table (reference) and through 8 entry points: rbql.query with user-written iterator / writer / registry classes, query_csv, CLI file -> file and stdin -> stdout in the three output formats, query_pandas_dataframe, query_sqlite_to_csv, CLI sqlite; plus failing queries (parsing, execution, IO, syntax) x {file, stdout, sqlite} for exit status / Error [type] on stderr, and warning routing. distinct_nontrivial = distinct (query, tables) with a non-empty result + failing scenarios.',
         'required': ['cases', 'front_end:query+user-classes', 'front_end:query_csv', 'front_end:pandas', 'front_end:sqlite', 'front_end:cli-sqlite', 'front_end:cli-file-tsv', 'front_end:cli-file-csv', 'front_end:cli-file-input', 'front_end:cli-stdin-stdout-csv', 'cli_failing_runs', 'cli_warning_runs'],
         'extra': {'front_end_comparisons': fe},
-        'assumptions': ['query_table is the reference (pinned by C01-C05, C07)', 'types are not compared across back ends (CSV and pandas stringify): cells are compared after the stringification every CSV sink applies', 'scratch files are named in_<n>.csv / jn_<n>.csv: a path containing an a./b. token under a header is the C08 known finding, not a front-end difference'],
+        'assumptions': ['query_table is the reference (pinned by C01-C05, C07)', 'types are not compared across back ends (CSV and pandas stringify): cells are compared after the stringification every CSV sink applies', 'scratch files are named in.csv / jn.csv / in_<n>.csv / jn_<n>.csv in a directory c<n> per case: a path containing an a./b. token under a header is the C08 known finding, not a front-end difference'],
     }
 
 
